@@ -5,6 +5,9 @@ package snaps
 import (
 	"encoding/json"
 	"fmt"
+	"os"
+	"os/exec"
+	"path/filepath"
 	"strconv"
 	"strings"
 
@@ -316,8 +319,83 @@ func c13Run(c *vfCtx, cs c13Case) {
 	}
 }
 
+// c13EnvMode: NO_COLOR mode is entered through the environment ("NO_COLOR set to any value", README and the comment in
+// internal/colors), read once at package init: decided in fresh processes, one per value.
+func c13EnvMode(c *vfCtx) {
+	bin := os.Getenv("VERIF_BIN")
+	if bin == "" {
+		bin = os.Args[0]
+	}
+	run := func(set bool, val string) (string, bool) {
+		out := filepath.Join(c.scratch, "c13child.json")
+		os.Remove(out)
+		w := filepath.Join(c.scratch, "c13childw")
+		os.RemoveAll(w)
+		os.MkdirAll(w, 0o755)
+		cmd := exec.Command(bin, "-test.run", "^TestVerifDriver$", "-test.count", "1", "-test.timeout", "60s")
+		var env []string
+		for _, e := range os.Environ() {
+			if strings.HasPrefix(e, "NO_COLOR=") || strings.HasPrefix(e, "_=") || strings.HasPrefix(e, "VERIF_") {
+				continue
+			}
+			env = append(env, e)
+		}
+		env = append(env, "VERIF_PROP=C13", "VERIF_MODE=c13child", "VERIF_TIER=quick", "VERIF_SHARD=0/1", "VERIF_OUT="+out, "VERIF_SCRATCH="+w, "_=/usr/bin/go")
+		if set {
+			env = append(env, "NO_COLOR="+val)
+		}
+		cmd.Env = env
+		if b, err := cmd.CombinedOutput(); err != nil {
+			c.harnessErr("C13 child process failed: %v %s", err, vfClip(string(b)))
+			return "", false
+		}
+		b, _ := os.ReadFile(out)
+		var r struct {
+			Extra map[string]any `json:"extra"`
+		}
+		json.Unmarshal(b, &r)
+		rep, _ := r.Extra["c13_report"].(string)
+		c.count("transitions", 1)
+		return rep, rep != ""
+	}
+	if rep, ok := run(false, ""); ok && !strings.Contains(rep, "\x1b") {
+		c.harnessErr("C13 env control: without NO_COLOR the report has no escape sequence (the environment check would be vacuous): %q", vfClip(rep))
+	}
+	for _, v := range []string{"", "1", "0", "false", "true", " "} {
+		rep, ok := run(true, v)
+		if !ok {
+			c.harnessErr("C13 env: child with NO_COLOR=%q produced no report", v)
+			continue
+		}
+		c.addSet("states", vfHash("env", v, rep))
+		if strings.Contains(rep, "\x1b") {
+			c.violation("", fmt.Sprintf("process started with NO_COLOR=%q (set, \"any value\"): the report of a failing comparison contains escape sequences: %q", v, vfClip(rep)), map[string]any{"no_color_env": v})
+		}
+	}
+}
+
 func init() {
+	vfDrivers["C13"] = &vfDriver{run: func(c *vfCtx) {
+		if c.mode == "" && c.shard == 0 {
+			c13EnvMode(c)
+		}
+	}}
 	vfRegister("C13", func(c *vfCtx, emit func(c13Case)) {
+		if c.mode == "c13child" {
+			dir := filepath.Join(c.scratch, "w")
+			os.MkdirAll(dir, 0o755)
+			cfg := WithConfig(Dir(dir), Filename("f"), Update(false))
+			t := &vfT{name: "TestA"}
+			WithConfig(Dir(dir), Filename("f")).MatchSnapshot(t, "a\nb\nc")
+			t.end()
+			t2 := &vfT{name: "TestA"}
+			cfg.MatchSnapshot(t2, "a\nX\nc")
+			t2.end()
+			if len(t2.errs) == 1 {
+				c.extra["c13_report"] = t2.errs[0]
+			}
+			return
+		}
 		c.rule = "all ordered pairs of line sequences over {a,b,c} up to length 4 (quick) / 5 (thorough), over {a,'',- x}, {a\\xff,a\\xfe,é} and diff-markup look-alikes up to length 3/2, each with/without trailing newline; long texts (12 and 210 lines, popular line) x single/double edits; colours on/off. " +
 			"non-trivial = distinct unequal pairs"
 		c13Gen(c, emit)
